@@ -67,15 +67,15 @@ class CircleCurve(AnalyticCurve):
 
         # normal is a unit vector and is not transformed the same
         # as points. To keep things simple, use (and transform) 3 points
-        # and calculate normal on-the-go
-        normal = f.unit_vector(normal)
-        self.atop = Point(origin + normal)
+        # and calculate normal on-the-go; the third is another point of the circle
+        # so that the sense of rotation is also mirrored when the points are
+        self.side = Point(f.rotate(self.rim.position, np.pi / 2, f.unit_vector(normal), self.origin.position))
 
         super().__init__(lambda t: f.rotate(self.rim.position, t, self.normal, self.origin.position), bounds)
 
     @property
     def normal(self) -> NPVectorType:
-        return self.atop.position - self.origin.position
+        return np.cross(self.rim.position - self.origin.position, self.side.position - self.origin.position)
 
     @property
     def center(self):
@@ -83,4 +83,4 @@ class CircleCurve(AnalyticCurve):
 
     @property
     def parts(self):
-        return [self.origin, self.rim, self.atop]
+        return [self.origin, self.rim, self.side]
